@@ -505,7 +505,7 @@ class CSSParser:
             pattern = re.compile(r'^%s.*' % (re.escape(value) if value else r'[^\s\S]'), flags)
         elif op.startswith('$'):
             # Value ends with
-            pattern = re.compile(r'.*?%s$' % (re.escape(value) if value else r'[^\s\S]'), flags)
+            pattern = re.compile(r'.*?%s\Z' % (re.escape(value) if value else r'[^\s\S]'), flags)
         elif op.startswith('*'):
             # Value contains
             pattern = re.compile(r'.*?%s.*' % (re.escape(value) if value else r'[^\s\S]'), flags)
@@ -517,10 +517,10 @@ class CSSParser:
             pattern = re.compile(r'.*?(?:(?<=^)|(?<=[ \t\r\n\f]))%s(?=(?:[ \t\r\n\f]|$)).*' % value, flags)
         elif op.startswith('|'):
             # Value starts with word in dash separated list
-            pattern = re.compile(r'^%s(?:-.*)?$' % re.escape(value), flags)
+            pattern = re.compile(r'^%s(?:-.*)?\Z' % re.escape(value), flags)
         else:
             # Value matches
-            pattern = re.compile(r'^%s$' % re.escape(value), flags)
+            pattern = re.compile(r'^%s\Z' % re.escape(value), flags)
             if op.startswith('!'):
                 # Equivalent to `:not([attr=value])`
                 inverse = True
